@@ -15,6 +15,7 @@
 package ggql
 
 import (
+	"math"
 	"strconv"
 )
 
@@ -41,9 +42,17 @@ func (*float64Scalar) CoerceIn(v interface{}) (interface{}, error) {
 	case nil:
 		// remains nil
 	case float64:
-		// ok as is
+		if math.IsNaN(tv) || math.IsInf(tv, 0) {
+			v = nil
+			err = newCoerceErr(tv, "Float64")
+		}
 	case float32:
-		v = float64(tv)
+		if f := float64(tv); math.IsNaN(f) || math.IsInf(f, 0) {
+			v = nil
+			err = newCoerceErr(tv, "Float64")
+		} else {
+			v = f
+		}
 	case int32:
 		v = float64(tv)
 	case int64:
